@@ -201,6 +201,29 @@ def gen_nodes(rng, kv, p):
     return out
 
 
+def gen_nodes_distinct(rng, kv, p, others):
+    """a custom unisolvent node set (p >= 1) that differs from every node set in `others`"""
+    for _ in range(40):
+        nd = gen_nodes(rng, kv, p)
+        if nd is not None and all(nd != o for o in others) and nd != greville_exact(kv, p):
+            return nd
+    # deterministic fall-back: interior Greville points moved towards their right neighbour
+    n = len(kv) - p - 1
+    g = greville_exact(kv, p)
+    hmin = min(b - a for a, b in zip(kv[:-1], kv[1:]) if b > a)
+    D = 64 / hmin
+    for num in (1, 3, 5, 7, 2, 6):
+        nd = list(g)
+        for i in range(1, n - 1):
+            nd[i] = Fraction(round((g[i] + Fraction(num, 16) * (g[i + 1] - g[i])) * D)) / D
+        nd[0], nd[-1] = kv[0], kv[-1]
+        ok = all(Fraction(float(x)) == x for x in nd) and all(a < b for a, b in zip(nd[:-1], nd[1:]))
+        ok = ok and all(kv[i] < nd[i] < kv[i + p + 1] for i in range(1, n - 1))
+        if ok and all(nd != o for o in others) and (n > 2):
+            return nd
+    raise AssertionError('generator: no distinct unisolvent node set for %r' % (kv,))
+
+
 def kvspec(kv, p):
     return {'p': p, 'kv': [float(x).hex() for x in kv]}
 
@@ -274,6 +297,9 @@ def gen_interp_cases(ctx, n, nsmall):
         else:
             sp = gen_space(rng, thorough)
         d = len(sp)
+        shared = d >= 2 and c >= 7 + nsmall and gk in ('none', 'affine') and rng.random() < 0.35
+        if shared:
+            sp[-1] = sp[0]               # the same knot vector in the first and the last direction
         if gk == 'affine' and d == 1:
             gk = 'none'
         if gk != 'none' and dk in ('space', 'space-callable', 'array'):
@@ -281,13 +307,13 @@ def gen_interp_cases(ctx, n, nsmall):
         trailing = rng.choice([[], [], [3], [2, 2], [2]])
         T = prod(trailing)
         N = [len(kv) - p - 1 for kv, p in sp]
-        custom = rng.random() < 0.45
+        custom = rng.random() < 0.45 or shared
         nodes = [gen_nodes(rng, kv, p) for kv, p in sp] if custom else None
         if nodes is not None and any(nd is None for nd in nodes):
             nodes = None
         case = {'op': 'interp', 'kvs': [kvspec(kv, p) for kv, p in sp], 'trailing': trailing,
                 'nodes': None if nodes is None else [[float(x).hex() for x in nd] for nd in nodes],
-                'bare_kv': d == 1 and rng.random() < 0.5, 'geo': None}
+                'bare_kv': d == 1 and rng.random() < 0.5, 'geo': None, 'identical_kv': shared and rng.random() < 0.5}
         if gk == 'affine':
             case['geo'] = gen_affine(rng, d)
         elif gk in ('bspline_annulus', 'nurbs_annulus'):
@@ -307,6 +333,48 @@ def gen_interp_cases(ctx, n, nsmall):
         case['gk'] = gk
         case['dk'] = dk
         case['small'] = 7 <= c < 7 + nsmall
+        cases.append(case)
+    # shared-knot-vector stream: the SAME knot vector in two or three directions (equal copies, or one
+    # identical KnotVector object: 'identical_kv') with per-direction DIFFERENT custom unisolvent node
+    # grids (exact Greville points in one direction and perturbed ones in the others, or all perturbed),
+    # function and array data.  Anything cached or shared per knot vector instead of per (knot vector,
+    # nodes) shows up here.  Small and on coarse dyadic grids: also evaluated by the Coq model.
+    for s_ in range(24 if thorough else 8):
+        d = 3 if s_ % 4 == 3 else 2
+        grev0 = s_ % 8 in (0, 1, 6, 7)            # exact Greville points (dyadic for p <= 2) in direction 0
+        p = rng.randint(1, 2) if grev0 else rng.randint(1, 3)
+        maxd = {2: 6, 3: 4}[d]
+        p = min(p, maxd - 2)
+        while True:
+            kv = gen_kv(rng, p, rng.random() < 0.5, maxd)
+            if len(kv) - p - 1 >= 3:
+                break
+        sp = [(kv, p)] * d
+        if d == 3 and s_ % 8 == 7:
+            pb = rng.randint(1, 2)
+            sp[1] = (gen_kv(rng, pb, True, maxd), pb)
+        nodes = []
+        for k, (kvk, pk) in enumerate(sp):
+            g = greville_exact(kvk, pk)
+            if k == 0 and grev0 and all(Fraction(float(x)) == x for x in g):
+                nodes.append(g)                       # Greville abscissae given explicitly
+            else:
+                nodes.append(gen_nodes_distinct(rng, kvk, pk, [nd for nd, (kvo, po) in zip(nodes, sp) if kvo == kvk and po == pk]))
+        N = [len(kvk) - pk - 1 for kvk, pk in sp]
+        trailing = [[], [2], [], [3]][s_ % 4]
+        T = prod(trailing)
+        dk = ['space', 'array', 'space-callable', 'poly'][s_ % 4]
+        case = {'op': 'interp', 'kvs': [kvspec(kvk, pk) for kvk, pk in sp], 'trailing': trailing,
+                'nodes': [[float(x).hex() for x in nd] for nd in nodes], 'bare_kv': False, 'geo': None,
+                'identical_kv': s_ % 8 in (1, 2, 4, 7), 'gk': 'none', 'dk': dk, 'small': True, 'shared': True}
+        if dk in ('space', 'space-callable'):
+            case['data'] = {'kind': 'space', 'coeffs': [[rng.randint(-64, 64), 8] for _ in range(prod(N) * T)],
+                            'route': 'callable' if dk == 'space-callable' else 'bsplinefunc'}
+        elif dk == 'poly':
+            case['data'] = {'kind': 'poly', 'comps': gen_poly(rng, d, rng.randint(1, 4), T), 'style': rng.choice(['tuple', 'array'])}
+        else:
+            case['data'] = {'kind': 'array', 'shape': N + trailing,
+                            'vals': [[rng.randint(-64, 64), 8] for _ in range(prod(N) * T)]}
         cases.append(case)
     # malformed stream: wrong array shape, non-unisolvent node grid (repeated node)
     for _ in range(4 if not thorough else 12):
@@ -919,7 +987,7 @@ def run(ctx):
     results = []
     B = 400
     for i in range(0, len(allc), B):
-        payload = [{k: v for k, v in c.items() if k not in ('gk', 'dk', 'expect', 'small')} for c in allc[i:i + B]]
+        payload = [{k: v for k, v in c.items() if k not in ('gk', 'dk', 'expect', 'small', 'shared')} for c in allc[i:i + B]]
         results += ctx.impl.run(DRIVER, {'cases': payload}, timeout=2400)['results']
     log('[C17] implementation ran %d cases, %.0fs' % (len(allc), __import__('time').time() - ctx.t0))
     for nm, lo, hi in (('interp', 0, len(icases)), ('l2', len(icases), len(icases) + len(lcases)), ('hspace', len(icases) + len(lcases), len(allc))):
@@ -936,6 +1004,7 @@ def run(ctx):
         for k in c['kvs']:
             dist['degrees'][k['p']] = dist['degrees'].get(k['p'], 0) + 1
         dist['custom_nodes'] += c['nodes'] is not None
+        dist['shared_kv_distinct_nodes'] = dist.get('shared_kv_distinct_nodes', 0) + bool(c.get('shared'))
         tk = str(c.get('trailing', []))
         dist['trailing'][tk] = dist['trailing'].get(tk, 0) + 1
         ctx.count(('interp', c['kvs'], c['nodes'], c['data'], c['geo']), nontrivial=True)
@@ -978,8 +1047,9 @@ def run(ctx):
     # correspondence with the Coq model (a few cases per file, files in parallel)
     PER = 3
     # the structured small stream first, then the malformed / other eligible cases, up to the cap
-    coq_items.sort(key=lambda it: (0 if icases[it[0]].get('small') else (1 if icases[it[0]]['dk'] == 'repeated-node' else 2), it[0]))
-    coq_items = coq_items[:(96 if thorough else 20)]
+    coq_items.sort(key=lambda it: (0 if icases[it[0]].get('shared') else 1 if icases[it[0]].get('small') else
+                                   (2 if icases[it[0]]['dk'] == 'repeated-node' else 3), it[0]))
+    coq_items = coq_items[:(108 if thorough else 24)]
     log('[C17] oracles done, %.0fs; %d cases for the Coq model' % (__import__('time').time() - ctx.t0, len(coq_items)))
     coq_files, coq_index = [], []
     for i in range(0, len(coq_items), PER):
